@@ -1359,52 +1359,117 @@ class Context:
         self._globals[name] = self._to_js(value)
 
     def _to_python(self, value: JSValue) -> Any:
-        """Convert a JavaScript value to Python."""
-        if value is UNDEFINED:
+        """Convert a JavaScript value to Python.
+
+        Containers are converted with an explicit work list, so nesting depth
+        is not limited by the host's recursion limit.
+        """
+
+        def leaf(v):
+            if v is UNDEFINED or v is NULL:
+                return None
+            host = getattr(v, "__wrapped__", None)
+            if host is not None and callable(v):
+                return host  # an exposed Python callable comes back as itself
+            return v
+
+        def shell(v):
+            """Empty Python container for a JS container, else None."""
+            if isinstance(v, JSArray):
+                return []
+            if isinstance(v, JSObject):
+                return {}
             return None
-        if value is NULL:
-            return None
-        if isinstance(value, bool):
-            return value
-        if isinstance(value, (int, float)):
-            return value
-        if isinstance(value, str):
-            return value
-        if isinstance(value, JSArray):
-            return [self._to_python(elem) for elem in value._elements]
-        if isinstance(value, JSObject):
-            return {k: self._to_python(v) for k, v in value._properties.items()}
-        return value
+
+        root = shell(value)
+        if root is None or isinstance(value, (bool, int, float, str)):
+            return leaf(value)
+        work = [(value, root)]
+        while work:
+            src, dst = work.pop()
+            if isinstance(src, JSArray):
+                items = enumerate(src._elements)
+            else:
+                items = src._properties.items()
+            for key, item in items:
+                child = shell(item)
+                if child is None:
+                    child = leaf(item)
+                else:
+                    work.append((item, child))
+                if isinstance(dst, list):
+                    dst.append(child)
+                else:
+                    dst[key] = child
+        return root
 
     def _to_js(self, value: Any) -> JSValue:
-        """Convert a Python value to JavaScript."""
-        if value is None:
-            return NULL
-        if isinstance(value, bool):
-            return value
-        if isinstance(value, (int, float)):
-            return value
-        if isinstance(value, str):
-            return value
-        # Already JS values - pass through
-        if isinstance(value, (JSObject, JSFunction, JSCallableObject)):
-            return value
-        if value is UNDEFINED:
-            return value
-        if isinstance(value, list):
-            arr = JSArray()
-            for elem in value:
-                arr.push(self._to_js(elem))
-            return arr
-        if isinstance(value, dict):
-            obj = JSObject()
-            for k, v in value.items():
-                obj.set(str(k), self._to_js(v))
-            return obj
-        # Python callables become JS functions
-        if callable(value):
-            return value
-        return UNDEFINED
+        """Convert a Python value to JavaScript (iteratively, see _to_python)."""
+
+        def shell(v):
+            if isinstance(v, list):
+                return JSArray()
+            if isinstance(v, dict):
+                return JSObject()
+            return None
+
+        def leaf(v):
+            if v is None:
+                return NULL
+            if isinstance(v, (bool, int, float, str)):
+                return v
+            # Already JS values - pass through
+            if isinstance(v, (JSObject, JSFunction, JSCallableObject)):
+                return v
+            if v is UNDEFINED:
+                return v
+            # Python callables become JS functions
+            if callable(v):
+                return self._wrap_host_function(v)
+            return UNDEFINED
+
+        root = shell(value)
+        if root is None:
+            return leaf(value)
+        work = [(value, root)]
+        while work:
+            src, dst = work.pop()
+            if isinstance(src, list):
+                for item in src:
+                    child = shell(item)
+                    if child is None:
+                        dst.push(leaf(item))
+                    else:
+                        dst.push(child)
+                        work.append((item, child))
+            else:
+                for k, item in src.items():
+                    child = shell(item)
+                    if child is None:
+                        dst.set(str(k), leaf(item))
+                    else:
+                        dst.set(str(k), child)
+                        work.append((item, child))
+        return root
+
+    def _wrap_host_function(self, fn: Any) -> Any:
+        """Expose a Python callable: what it returns reaches the script as the
+        corresponding JavaScript value (lists as arrays, dicts as objects)."""
+        if getattr(fn, "__wrapped__", None) is not None and getattr(
+            fn, "_microjs_host_function", False
+        ):
+            return fn
+        ctx = self
+
+        def host_function(*args):
+            result = fn(*args)
+            # A function that returns nothing returns undefined
+            return UNDEFINED if result is None else ctx._to_js(result)
+
+        host_function.__wrapped__ = fn
+        host_function._microjs_host_function = True
+        host_function.__name__ = getattr(fn, "__name__", "host_function")
+        return host_function
 
 
 # Backwards-compatible alias: JSContext was the original name and may be used
